@@ -228,7 +228,348 @@ def search_tables(pid, ctx):
 
 
 # ------------------------------------------------------------------------------------------------
-# the remaining oracles are attached as they are written (see vlib/pyeval.py); until then they only count
+# oracles built on the independent reading in vlib/pyeval.py
+
+from . import pyeval
+
+INIT_CONSTS = {"i": 1j, "e": math.e, "pi": math.pi, "π": math.pi, "tau": 2 * math.pi, "phi": (1 + 5 ** 0.5) / 2, "ϕ": (1 + 5 ** 0.5) / 2,
+               "c": 299792458.0, "G": 9.80665}
+
+
+def make_scanner(ctx):
+    if "scanner" not in ctx:
+        ctx["scanner"] = pyeval.Scanner([tuple(r) for r in ctx["dump"]["alnum"]], {w: k for w, k in spec_spellings().items() if k in UNIT_SPEC})
+    return ctx["scanner"]
+
+
+TOK_FIELD = re.compile(r"\{(\d+)@(\d+):(\d+):([0-9a-f-]+)(?::([^}]*))?\}")
+
+
+def impl_tokens(line):
+    out = []
+    for m in TOK_FIELD.finditer(line):
+        tag = int(m.group(1))
+        payload = m.group(5)
+        if tag == 26:
+            payload = unhx(payload)
+        elif tag == 27:
+            a, b = payload.split("_")
+            payload = complex(fl(a[1:]), fl(b[1:]))
+        elif tag == 28:
+            payload = UNIT_ORDER[int(payload)]
+        out.append((tag, unhx(m.group(4)), int(m.group(2)), int(m.group(3)), payload))
+    return out
+
+
+def oracle_scanner(ctx, name, a, b, cpath):
+    """C04: an independent longest-match scanner recomputes kinds, slices, values and positions"""
+    rep = ctx["rep"]
+    sc = make_scanner(ctx)
+    bad = 0
+    judged = 0
+    with open(cpath) as f:
+        for line in f:
+            p = line.rstrip("\n").split(" ")
+            if p[0] != "tok":
+                continue
+            cid, tab, text = p[1], int(p[2]), unhx(p[3])
+            lines = a.get(cid)
+            if not lines or lines[0].split(" ")[0] in ("PANIC", "CRASH", "TIMEOUT"):
+                continue
+            judged += 1
+            r = sc.scan(text, tab)
+            il = lines[0]
+            ok = True
+            why = ""
+            if r[0] == "bad":
+                want = "TOK bad %d %d %d" % (r[1], r[2], ord(r[3]))
+                ok = il == want
+                why = "expected %r" % want
+            elif not il.startswith("TOK ok"):
+                ok, why = False, "expected %d tokens, got %r" % (len(r[1]), il)
+            else:
+                it = impl_tokens(il)
+                if len(it) != len(r[1]):
+                    ok, why = False, "expected %d tokens, got %d" % (len(r[1]), len(it))
+                else:
+                    for x, y in zip(it, r[1]):
+                        same = x[:4] == y[:4] and (x[4] == y[4] if x[0] != 27 else (x[4].imag == 0 and (x[4].real == y[4] or (x[4].real != x[4].real and y[4] != y[4]))))
+                        if not same:
+                            ok, why = False, "token %r, the longest-match scanner gives %r" % (x, y)
+                            break
+            if not ok:
+                bad += 1
+                if bad <= 5:
+                    key = " [spelling:yard]" if any(w in text for w in ("yd", "yard")) else ""
+                    rep.violation("scanner%s: %r (tab %d) is not scanned as the documented lexical rules say" % (key, text, tab), case=line.strip(),
+                                  impl=lines, stream=name, oracle=why)
+    rep.count("oracle:scanner judged", judged)
+
+
+def tokens_of_descs(descs):
+    toks = []
+    for d in descs:
+        if not d:
+            continue
+        tag, rest = d.split("@")
+        parts = rest.split(":", 3)
+        tag = int(tag)
+        payload = parts[3] if len(parts) > 3 else None
+        if tag == 26:
+            payload = unhx(payload)
+        elif tag == 27:
+            a, b = payload.split("_")
+            z = complex(fl(a[1:]), fl(b[1:]))
+            payload = z.real if z.imag == 0 else z
+        elif tag == 28:
+            payload = UNIT_ORDER[int(payload)]
+        toks.append((tag, unhx(parts[2]), int(parts[0]), int(parts[1]), payload))
+    return toks
+
+
+def judge_parse(rep, name, line, lines, toks, with_pos=False):
+    r = pyeval.parse_program(toks)
+    il = lines[0]
+    if r[0] == "ok":
+        if not il.startswith("PARSE ok"):
+            return "the grammar derives this token sequence, the implementation rejects it: %s" % il
+        body = il[len("PARSE ok "):] if len(il) > len("PARSE ok") else ""
+        stmts = [s for s in body.split("~") if s] if body else []
+        try:
+            got = [pyeval.stmt_of(s, UNIT_ORDER) for s in stmts]
+        except Exception as e:  # malformed observation
+            return "unreadable statement tree: %s" % e
+        if not pyeval.same_tree(tuple(got), tuple(r[1])):
+            return "read as %r, the documented grammar gives %r" % (got, r[1])
+        return None
+    if not il.startswith("PARSE err"):
+        return "the grammar does not derive this token sequence (%s), the implementation accepts it: %s" % (r[1], il[:200])
+    p = il.split(" ")
+    if p[2] != r[1]:
+        return "error kind %s, the documented grammar's first failure is %s" % (p[2], r[1])
+    if with_pos:
+        want = ("%d %d" % r[2]) if r[2] else "- -"
+        if " ".join(p[3:5]) != want:
+            return "error position %s, expected %s" % (" ".join(p[3:5]), want)
+    return None
+
+
+def oracle_parse(ctx, name, a, b, cpath, with_pos=False):
+    """C03: an independent table-driven reader of the documented grammar"""
+    rep = ctx["rep"]
+    bad = judged = 0
+    with open(cpath) as f:
+        for line in f:
+            p = line.rstrip("\n").split(" ")
+            cid = p[1]
+            lines = a.get(cid)
+            if not lines or not lines[0].startswith("PARSE"):
+                continue
+            if p[0] == "parsek":
+                toks = tokens_of_descs(p[2:])
+            elif p[0] == "parset":
+                r = make_scanner(ctx).scan(unhx(p[3]), int(p[2]))
+                if r[0] != "ok":
+                    continue
+                if lines[0].startswith("PARSE scanerr"):
+                    continue
+                toks = r[1]
+            else:
+                continue
+            judged += 1
+            why = judge_parse(rep, name, line, lines, toks, with_pos)
+            if why:
+                bad += 1
+                if bad <= 5:
+                    rep.violation("reader: %s is not read as the documented grammar says" % (describe_tokens(toks)), case=line.strip(), impl=lines,
+                                  stream=name, oracle=why[:600])
+    rep.count("oracle:reader judged", judged)
+
+
+oracle_parse_text = oracle_parse
+
+
+def oracle_parse_pos(ctx, name, a, b, cpath):
+    return oracle_parse(ctx, name, a, b, cpath, with_pos=True)
+
+
+def describe_tokens(toks):
+    return "`" + " ".join(t[1] for t in toks)[:200] + "`"
+
+
+def outcomes_by_text(lines):
+    """{(k, j): O-line parts}, {k: 'scanerr'|'parseerr ...'}"""
+    outs, errs = {}, {}
+    for l in lines:
+        p = l.split(" ")
+        if len(p) < 2 or not p[0].startswith("T"):
+            continue
+        try:
+            k = int(p[0][1:])
+        except ValueError:
+            continue
+        if p[1].startswith("O"):
+            outs[(k, int(p[1][1:]))] = p
+        elif p[1] in ("scanerr", "parseerr"):
+            errs[k] = p[1:]
+    return outs, errs
+
+
+def complex_close(a, b, tol_abs):
+    if any(math.isnan(x) or math.isinf(x) for x in (a.real, a.imag, b.real, b.imag)):
+        return None
+    return abs(a - b) <= tol_abs
+
+
+def oracle_eval(ctx, name, a, b, cpath):
+    """C02 / C05 / C06 / C07: an independent evaluator judges every expression statement it can interpret"""
+    rep = ctx["rep"]
+    sc = make_scanner(ctx)
+    judged = bad = 0
+    unj = {}
+    with open(cpath) as f:
+        for line in f:
+            p = line.rstrip("\n").split(" ")
+            if p[0] != "hist":
+                continue
+            cid, tab = p[1], int(p[2])
+            lines = a.get(cid)
+            if not lines:
+                continue
+            outs, errs = outcomes_by_text(lines)
+            env = {k: ("n", complex(v)) for k, v in INIT_CONSTS.items()}
+            for nme in pyeval.BUILTIN_DOMAINS:
+                env[nme] = ("builtin", nme)
+            for k, th in enumerate(p[3:]):
+                text = unhx(th)
+                r = sc.scan(text, tab)
+                if r[0] != "ok":
+                    continue
+                pr = pyeval.parse_program(r[1])
+                if pr[0] != "ok" or k in errs:
+                    continue
+                for j, st in enumerate(pr[1]):
+                    ev = pyeval.Evaluator(UNIT_SPEC, env)
+                    o = outs.get((k, j))
+                    if st[0] == "clear":
+                        for nm in [n for n, v in env.items() if v[0] != "builtin" and n not in INIT_CONSTS]:
+                            del env[nm]
+                        continue
+                    if st[0] in ("delvar",):
+                        if st[1] in env and env[st[1]][0] != "builtin" and st[1] not in INIT_CONSTS:
+                            del env[st[1]]
+                        continue
+                    if st[0] in ("define", "delsig"):
+                        if st[1] not in INIT_CONSTS and env.get(st[1], ("x",))[0] != "builtin":
+                            env[st[1]] = ("f",)
+                        continue
+                    try:
+                        v = ev.ev(st[2] if st[0] == "assign" else st[1])
+                        res = ("val", v)
+                    except pyeval.Refuse as e:
+                        res = ("err", e.kind)
+                    except pyeval.Unjudged:
+                        res = ("unjudged",)
+                    except (ZeroDivisionError, OverflowError, ValueError):
+                        res = ("unjudged",)
+                    if st[0] == "assign":
+                        if st[1] in INIT_CONSTS or env.get(st[1], ("x",))[0] == "builtin":
+                            continue
+                        if res[0] == "val":
+                            env[st[1]] = res[1]
+                        elif res[0] == "unjudged":
+                            env[st[1]] = ("f",)
+                        continue
+                    if o is None:
+                        continue
+                    if res[0] == "unjudged" or ev.flags & {"nonfinite", "branch-cut", "near-integer", "zero-base", "near-singular"}:
+                        key = "unjudged:" + ("+".join(sorted(ev.flags & {"nonfinite", "branch-cut", "near-integer", "zero-base", "near-singular"})) or "not-interpreted")
+                        unj[key] = unj.get(key, 0) + 1
+                        continue
+                    judged += 1
+                    why = judge_value(res, o, ev, text)
+                    if why:
+                        bad += 1
+                        if bad <= 6:
+                            key = ""
+                            if "cross" in text or "×" in text:
+                                if "orientation" in why:
+                                    key = " [column-cross-orientation]"
+                            if any(u in text.replace("yd", " yard ") for u in (" yard",)) or "yd" in text.split():
+                                key = " [spelling:yard]"
+                            if re.search(r"\b[KMGTPE]?i?b\b", text) and "B" in text or re.search(r"\d ?[KMGTPE]?i?b\b", text):
+                                if "size" in why:
+                                    key = " [unit-factor:bit-family]"
+                            rep.violation("evaluator%s: %r evaluates wrongly" % (key, text.strip()), case=line.strip(), impl=[" ".join(o)], stream=name,
+                                          oracle=why[:500])
+    rep.count("oracle:evaluator judged", judged)
+    for k, v in unj.items():
+        rep.unjudged[k] = rep.unjudged.get(k, 0) + v
+
+
+def judge_value(res, o, ev, text):
+    if res[0] == "err":
+        if o[2] != "err":
+            return "the mathematics refuses this (%s); the implementation returned %s" % (res[1], " ".join(o[2:4])[:200])
+        if o[3] != res[1]:
+            return "diagnostic kind %s, expected %s" % (o[3], res[1])
+        return None
+    v = res[1]
+    if o[2] != "val":
+        return "expected a value, the implementation reported %s" % " ".join(o[2:6])
+    got = parse_val(o[3])
+    scale = max(ev.cond, 1e-300)
+    if v[0] == "n":
+        if got[0] != "n":
+            return "expected a number, got %s" % o[3][:80]
+        tol = 1e-9 * max(abs(v[1]), scale)
+        c = complex_close(got[1], v[1], tol)
+        if c is False:
+            return "value %r, the mathematics gives %r (bound %.3g)" % (got[1], v[1], tol)
+        return None
+    if v[0] == "q":
+        if got[0] != "q":
+            return "expected a measurement, got %s" % o[3][:80]
+        unit = UNIT_ORDER[got[1]]
+        kind, size, imp = UNIT_SPEC[unit]
+        if kind != v[1]:
+            return "kind %s, expected %s" % (kind, v[1])
+        if kind == "temperature":
+            gsize = to_kelvin(got[2], unit)
+            tol = 1e-9 * max(abs(v[2]), 300.0)
+        else:
+            gsize = got[2] * float(size)
+            rel = 1e-5 if (imp or "imperial" in ev.flags) else 1e-9
+            tol = rel * max(abs(v[2]), scale * 0 + abs(v[2]))
+            tol = max(tol, 1e-300)
+        c = complex_close(complex(gsize), complex(v[2]), tol)
+        if c is False:
+            return "size %r in base units, the definitions give %r" % (gsize, v[2])
+        return None
+    if v[0] == "m":
+        if got[0] != "m":
+            return "expected a matrix, got %s" % o[3][:80]
+        A, B = got[1], v[1]
+        flatA = [x for r in A for x in r]
+        flatB = [x for r in B for x in r]
+        if (len(A), len(A[0])) != (len(B), len(B[0])):
+            if len(flatA) == len(flatB) and all(complex_close(x, y, 1e-9 * max(1.0, abs(y))) for x, y in zip(flatA, flatB)):
+                return "orientation: shape %dx%d, expected %dx%d with the same entries" % (len(A), len(A[0]), len(B), len(B[0]))
+            return "shape %dx%d, expected %dx%d" % (len(A), len(A[0]), len(B), len(B[0]))
+        m = max([abs(y) for y in flatB] + [scale])
+        for x, y in zip(flatA, flatB):
+            c = complex_close(x, y, 1e-8 * m)
+            if c is False:
+                return "entry %r, expected %r" % (x, y)
+        return None
+    return None
+
+
+oracle_numbers = oracle_eval
+oracle_linear_algebra = oracle_eval
+oracle_builtins = oracle_eval
+oracle_units_eval = oracle_eval
+oracle_paren_invariance = oracle_eval
 
 
 def _count_only(label):
@@ -237,13 +578,6 @@ def _count_only(label):
     return f
 
 
-oracle_numbers = _count_only("numbers")
-oracle_parse = _count_only("parse")
-oracle_parse_text = _count_only("parse-text")
-oracle_paren_invariance = _count_only("paren")
-oracle_scanner = _count_only("scanner")
-oracle_linear_algebra = _count_only("linear-algebra")
-oracle_builtins = _count_only("builtins")
 oracle_clear = _count_only("clear")
 oracle_frame = _count_only("frame")
 oracle_dispatch = _count_only("dispatch")
